@@ -28,8 +28,8 @@ import (
 	"github.com/EscanBE/evermint/v12/indexer"
 	rpcbackend "github.com/EscanBE/evermint/v12/rpc/backend"
 	rpcfilters "github.com/EscanBE/evermint/v12/rpc/namespaces/ethereum/eth/filters"
-	evmserver "github.com/EscanBE/evermint/v12/server"
 	rpctypes "github.com/EscanBE/evermint/v12/rpc/types"
+	evmserver "github.com/EscanBE/evermint/v12/server"
 	evertypes "github.com/EscanBE/evermint/v12/types"
 	evmtypes "github.com/EscanBE/evermint/v12/x/evm/types"
 
@@ -197,6 +197,7 @@ func TestEngineIndexer(t *testing.T) {
 			f.heavy = heavy && rng.Chance(2, 3)
 			txs = append(txs, f.genTx(rng, baseFee, ws))
 		}
+		txs = f.appendCrossing(rng, baseFee, ws, txs, heavy, p)
 		raw := make([][]byte, 0, len(txs)+1)
 		for _, g := range txs {
 			raw = append(raw, g.bytes)
